@@ -152,14 +152,14 @@ def count_theorems_in_source(prop: str) -> list[str]:
     return re.findall(r"^\s*theorem\s+(\S+)", _strip_comments(f.read_text()), flags=re.M)
 
 
-def run_driver(lines: list[str], timeout=3600) -> dict[str, str]:
-    """Pipe request lines to the Lean driver, return case-id -> observation."""
+def run_driver(lines: list[str], prop: str, timeout=3600) -> dict[str, str]:
+    """Pipe request lines to the Lean driver of `prop`, return case-id -> observation."""
     if not lines:
         return {}
     inp = "\n".join(lines) + "\n"
     try:
         p = subprocess.run(
-            ["lake", "env", "lean", "--run", "Driver.lean"],
+            ["lake", "env", "lean", "--run", f"Drivers/{prop}.lean"],
             cwd=LEAN,
             input=inp,
             capture_output=True,
@@ -261,12 +261,13 @@ def run_check(prop: str, tier: str, seed: int, replay: str | None) -> int:
         problems = list(mod.translate(REPO, GEN) or [])
 
     # 2. build
-    targets = list(mod.LEAN_TARGETS) + ["HugrVerif.Drive.All", "HugrVerif.AuditCmd"]
+    infra = list(getattr(mod, "DRIVE_TARGETS", [])) + ["HugrVerif.Drive.Loop", "HugrVerif.AuditCmd"]
+    targets = list(mod.LEAN_TARGETS) + infra
     ok, build_out = lake_build(targets)
     build_err = ""
     if not ok:
         # distinguish: did the property theorems fail, or shared infrastructure?
-        ok_infra, infra_out = lake_build(["HugrVerif.Drive.All", "HugrVerif.AuditCmd"])
+        ok_infra, infra_out = lake_build(infra)
         if not ok_infra:
             raise InfraError("lean infrastructure does not build:\n" + infra_out[-3000:])
         build_err = "\n".join(
@@ -333,7 +334,7 @@ def run_check(prop: str, tier: str, seed: int, replay: str | None) -> int:
         if hasattr(mod, "stats"):
             mod.stats(spec, obs, counters)
 
-    model_obs = run_driver(lines)
+    model_obs = run_driver(lines, prop)
     compare = getattr(mod, "compare", lambda s, a, b: a == b)
     divergences = []
     unsupported = 0
@@ -437,14 +438,14 @@ def run_check(prop: str, tier: str, seed: int, replay: str | None) -> int:
                     pl = mod.payload(s)
                     if pl is None:
                         return False
-                    mo = run_driver([f"0\t{pl[0]}\t{pl[1]}"]).get("0", "")
+                    mo = run_driver([f"0\t{pl[0]}\t{pl[1]}"], prop).get("0", "")
                     return not mo.startswith("!") and not compare(s, mod.run_impl(s), mo)
                 try:
                     spec = shrink(spec, still)
                 except Exception as e:  # noqa: BLE001
                     notes.append(f"shrink failed: {e!r}")
             pl = mod.payload(spec)
-            mo = run_driver([f"0\t{pl[0]}\t{pl[1]}"]).get("0", "")
+            mo = run_driver([f"0\t{pl[0]}\t{pl[1]}"], prop).get("0", "")
             nrep += 1
             p = write_replay(
                 prop, seed, nrep,
@@ -552,7 +553,7 @@ def setup() -> int:
             probs = mod.translate(REPO, GEN)
             if probs:
                 log(f"[setup] translator problems for {f.stem}: {probs}")
-    ok, out = lake_build(["HugrVerif", "HugrVerif.Drive.All", "HugrVerif.AuditCmd"])
+    ok, out = lake_build(["HugrVerif"])
     if not ok:
         log(out[-5000:])
         return 2
